@@ -9,6 +9,12 @@ package messagelog
 //	"compat"  message.Open(..).ForChannel(..)                    -> *message.ChannelStore
 //	          (the surface below pkg/channel/store/channel_adapter.go)
 //
+// On the compat surface the exact-proposal path is driven as well (specs/MessageLog/MessageLogX.tla):
+// message.StoreAppendBatch with one exact item (ExactBaseOffset + a proposal manifest sealed with
+// quorumlog.SealProposalManifest, exactly what pkg/channel/store's AppendLeader passes down),
+// AlreadyDurable retries of the tail and of older proposals, ReplaceRecoverySuffix, and the exact
+// view (LoadDurableFrontier, LoadDurableRecovery, LoadDurableProposal) is part of the projection.
+//
 // (a) every TLC behaviour is replayed call by call; after every call the reply and the full
 // projection (forward and reverse scans, paged reads, point reads, every index lookup of
 // the probe domain, log end, checkpoint) of every channel with an open lease are compared
@@ -32,6 +38,7 @@ import (
 	"github.com/WuKongIM/WuKongIM/pkg/db"
 	"github.com/WuKongIM/WuKongIM/pkg/db/message"
 	cc "github.com/WuKongIM/WuKongIM/pkg/db/message/channelcompat"
+	"github.com/WuKongIM/WuKongIM/pkg/quorumlog"
 	"verif/runner/kit"
 )
 
@@ -215,14 +222,34 @@ type sut struct {
 	ids     []int64
 	froms   []string
 	nos     []string
+	pids    []int64
 	infra   []string
+	// exact proposals as issued by this harness (they survive a database reopen, like a leader's
+	// memory of what it proposed): chain[c][seq] = identity of the exactly appended entry at seq,
+	// stored[c][pid] = the sealed proposal the store acknowledged as durable under that command
+	chain  map[string]map[uint64]quorumlog.EntryIdentity
+	stored map[string]map[int64]sealed
+	// exact view of each channel at its last projection (used by drivers to pick arguments)
+	lastEx map[string]map[string]any
+	lastHW map[string]int64
 	// observed rows of each channel at its last projection (used by drivers to pick arguments)
 	lastRows map[string][]map[string]any
 	lastLeo  map[string]int64
 }
 
 func newSUT(dir, surface string, cfg map[string]any) (*sut, error) {
-	s := &sut{dir: dir, surface: surface, leases: map[string][]lease{}, lastRows: map[string][]map[string]any{}, lastLeo: map[string]int64{}}
+	s := &sut{dir: dir, surface: surface, leases: map[string][]lease{}, lastRows: map[string][]map[string]any{}, lastLeo: map[string]int64{},
+		chain: map[string]map[uint64]quorumlog.EntryIdentity{}, stored: map[string]map[int64]sealed{},
+		lastEx: map[string]map[string]any{}, lastHW: map[string]int64{}}
+	for _, c := range chanNames {
+		s.chain[c] = map[uint64]quorumlog.EntryIdentity{}
+		s.stored[c] = map[int64]sealed{}
+	}
+	if _, ok := cfg["pids"]; ok {
+		for _, v := range kit.List(cfg, "pids") {
+			s.pids = append(s.pids, kit.ToInt(v))
+		}
+	}
 	for _, v := range kit.List(cfg, "ids") {
 		s.ids = append(s.ids, kit.ToInt(v))
 	}
@@ -336,10 +363,14 @@ func (s *sut) typedRecords(rs []rec) []message.Record {
 }
 
 func (s *sut) compatRecords(c string, rs []rec, base int64) []cc.Record {
+	return compatRecordsEpoch(c, rs, base, 0)
+}
+
+func compatRecordsEpoch(c string, rs []rec, base int64, epoch uint64) []cc.Record {
 	out := make([]cc.Record, len(rs))
 	for i, r := range rs {
 		enc := encodeCompat(compatMessage(c, r))
-		out[i] = cc.Record{ID: uint64(r.id), Payload: enc, SizeBytes: len(enc)}
+		out[i] = cc.Record{ID: uint64(r.id), Payload: enc, SizeBytes: len(enc), Epoch: epoch}
 		if base != 0 {
 			out[i].Index = uint64(base + int64(i))
 		}
@@ -436,7 +467,15 @@ func (s *sut) apply(ev map[string]any) (map[string]any, error) {
 		if s.typed() {
 			return errRes(l.t.TruncateFrom(bg, uint64(to)+1)), nil
 		}
-		return errRes(l.k.Truncate(uint64(to))), nil
+		err := l.k.Truncate(uint64(to))
+		if err == nil {
+			s.forgetAbove(c, uint64(to))
+		}
+		return errRes(err), nil
+	case "ExAppend":
+		return s.exAppend(c, l, ev)
+	case "Replace":
+		return s.replace(c, l, ev)
 	case "Adopt":
 		if s.typed() {
 			return nil, fmt.Errorf("Adopt on the typed surface")
@@ -843,6 +882,13 @@ func (s *sut) projectChan(c string) map[string]any {
 		}
 	}
 	out["cp"] = cp
+	s.lastHW[c] = 0
+	if h, ok := cp["hw"].(uint64); ok {
+		s.lastHW[c] = int64(h)
+	}
+	ex := s.exact(c, int64(leo), bySeqRow)
+	out["ex"] = ex
+	s.lastEx[c] = ex
 	return out
 }
 
@@ -957,7 +1003,7 @@ func (r *runner) tmp() string {
 // class of a divergence: C08 when the store admitted an append the specification rejects.
 func divergenceClass(ev map[string]any, want, got any) string {
 	a := kit.Str(ev, "a")
-	if a == "Append" || a == "Apply" {
+	if a == "Append" || a == "Apply" || a == "ExAppend" {
 		w, _ := kit.Canon(want).(map[string]any)
 		g, _ := kit.Canon(got).(map[string]any)
 		if kit.Str(w, "err") == "rejected" && kit.Str(g, "err") == "" {
